@@ -210,7 +210,7 @@ func (c Cond) Match(v int, e error) bool {
 		}
 		return false
 	case "types":
-		return typeMatches(e, c.Type)
+		return c.Type != "" && typeMatches(e, c.Type)
 	case "result":
 		return e == nil && v == c.Val
 	default:
